@@ -2,12 +2,14 @@ package node
 
 import (
 	"fmt"
+	"net"
 	"strings"
 	"testing"
 	"time"
 
 	gomavlib "github.com/bluenviron/gomavlib/v3"
 	"github.com/bluenviron/gomavlib/v3/pkg/dialects/ardupilotmega"
+	"github.com/bluenviron/gomavlib/v3/pkg/dialects/common"
 	"pgregory.net/rapid"
 
 	"verifharness/evid"
@@ -114,6 +116,106 @@ func TestC12Lives(t *testing.T) {
 		rec.Case(true, evid.HashS(desc), cls...)
 		if rec.WantSample("lives") {
 			rec.Sample("lives", desc)
+		}
+	})
+}
+
+// TestC12CloseWithUnsentData: a TCP peer that is alive but does not read, so much written to it that the socket's send
+// queue is full and the channel's writer sits inside Write, and a long write timeout (45 s): Close still returns at
+// once - it interrupts the write, it does not wait for the peer or for any timeout - and everything is released.
+func TestC12CloseWithUnsentData(t *testing.T) {
+	rec := evid.New(t, "C12", "TCP server or TCP client endpoint, WriteTimeout 45 s, a peer that never reads while 30000..40000 255-byte-payload messages are written to its channel (send queue full, writer inside Write), then Close: it must return within the bound (20 s, normally milliseconds), no library goroutine may remain, the port can be bound again, the peer sees the connection end; non-trivial = always; distinct by hash of the parameters")
+	rec.Require("close-with-a-full-send-queue")
+	evid.Check(t, rec, evid.N(3, 12), func(t *rapid.T) {
+		drawNodeInit(t)
+		client := rapid.Bool().Draw(t, "node_is_tcp_client")
+		nmsg := rapid.IntRange(30000, 40000).Draw(t, "messages")
+		consumer := rapid.Bool().Draw(t, "consumer")
+		desc := fmt.Sprintf("nodeIsTCPClient=%v messages=%d consumer=%v writeTimeout=45s", client, nmsg, consumer)
+		fail := func(format string, a ...interface{}) {
+			msg := desc + "\n" + fmt.Sprintf(format, a...)
+			evid.ReplayNote("C12", "TestC12CloseWithUnsentData", msg)
+			t.Fatalf("%s", msg)
+		}
+		port := sim.FreePort()
+		var ep gomavlib.EndpointConf = gomavlib.EndpointTCPServer{Address: sim.Addr(port)}
+		var l net.Listener
+		if client {
+			ep = gomavlib.EndpointTCPClient{Address: sim.Addr(port)}
+			var err error
+			if l, err = net.Listen("tcp4", sim.Addr(port)); err != nil {
+				t.Fatalf("BROKEN: listen: %v", err)
+			}
+			defer l.Close()
+		}
+		n := &gomavlib.Node{Endpoints: []gomavlib.EndpointConf{ep}, Dialect: ardupilotmega.Dialect, OutVersion: gomavlib.V2, OutSystemID: 7,
+			HeartbeatDisable: true, WriteTimeout: 45 * time.Second}
+		if err := initNode(&n); err != nil {
+			t.Fatalf("BROKEN: %v", err)
+		}
+		var conn net.Conn
+		var err error
+		if client {
+			l.(*net.TCPListener).SetDeadline(time.Now().Add(bound)) //nolint:errcheck
+			conn, err = l.Accept()
+		} else {
+			conn, err = net.DialTimeout("tcp4", sim.Addr(port), bound)
+		}
+		if err != nil {
+			closeNode(n, bound) //nolint:errcheck
+			t.Fatalf("BROKEN: no connection: %v", err)
+		}
+		defer conn.Close()
+		var rec2 *sim.Recorder
+		if consumer {
+			rec2 = sim.StartRecorder(n, sim.Pacing{Kind: "fast"}, nil)
+		}
+		time.Sleep(20 * time.Millisecond) // the channel exists (its open event may be waiting for a consumer)
+		for k := 0; k < nmsg; k++ {
+			m := &common.MessageEncapsulatedData{Seqnr: uint16(k)}
+			m.Data[252] = 0xEE
+			n.WriteMessageAll(m) //nolint:errcheck
+		}
+		if _, cerr := closeNode(n, bound); cerr != nil {
+			fail("%v", cerr)
+		}
+		if rec2 != nil {
+			if !rec2.WaitClosed(bound) {
+				fail("ranging over Events() did not end after Close")
+			}
+		} else {
+			for range n.Events() {
+			}
+		}
+		if left := sim.WaitNoLibGoroutines(3 * time.Second); len(left) > 0 {
+			fail("%d goroutine(s) started by the library are still alive after Close returned:\n%s", len(left), strings.Join(left, "\n\n"))
+		}
+		if !client {
+			ok := false
+			for k := 0; k < 400 && !ok; k++ {
+				ok = sim.CanBind(port)
+				if !ok {
+					time.Sleep(5 * time.Millisecond)
+				}
+			}
+			if !ok {
+				fail("port %d cannot be bound again after Close", port)
+			}
+		}
+		// the peer drains what was sent and then sees the end of the connection
+		conn.SetReadDeadline(time.Now().Add(bound)) //nolint:errcheck
+		buf := make([]byte, 1<<16)
+		for {
+			if _, rerr := conn.Read(buf); rerr != nil {
+				if isTimeout(rerr) {
+					fail("the connection is still open %v after Close returned", bound)
+				}
+				break
+			}
+		}
+		rec.Case(true, evid.HashS(desc), "close-with-a-full-send-queue")
+		if rec.WantSample("unsent") {
+			rec.Sample("unsent", desc)
 		}
 	})
 }
